@@ -294,3 +294,79 @@ fn c09_write_step_short_span() {
     kani::cover!(inside && l1 == l0 + 1, "span across a line end");
     kani::cover!(from == to, "two writes at the same beam position");
 }
+
+// ---- thorough-tier variants with larger bounds ---------------------------------------------------
+
+// @harness
+// @prop C09
+// @tier thorough
+// @features precise-border
+// @timeout 3000
+// @fn ZXBorder::set_border; ZXBorder::fill_to (real loop); ZXBorder::next_border_pixel
+// @sym as c09_write_step_short_span with up to 40 pixels of beam travel between the two writes
+// @assert as c09_write_step_short_span
+// @bound beam travel <= 40 pixels (unwind 43)
+#[kani::proof]
+#[kani::unwind(43)]
+fn c09_write_step_span_40() {
+    let m = any_machine();
+    let w = witness();
+    let mut b = ZXBorder::<WitFb>::new(m, w);
+    let t_prev: usize = kani::any();
+    let t: usize = kani::any();
+    kani::assume(t_prev <= t && t < spec_frame_t(m));
+    let (l0, p0, e0) = b.next_border_pixel(t_prev);
+    let (l1, p1, e1) = b.next_border_pixel(t);
+    kani::assume(!e0 && !e1);
+    let from = raster(l0, p0, false);
+    let to = raster(l1, p1, false);
+    kani::assume(to <= from + 40);
+    let c0 = any_color();
+    let c1 = any_color();
+    b.beam_last = BeamInfo::new(l0, p0, c0);
+    b.border_changed = kani::any();
+    b.beam_block = false;
+    b.set_border(t, c1);
+    let wr = w.wy * SCREEN_WIDTH + w.wx;
+    let inside = from <= wr && wr < to;
+    kani::assert(!b.buffer.oob, "c09.step.in_buffer");
+    kani::assert(b.buffer.hits == if inside { 1 } else { 0 }, "c09.step.exactly_the_span_since_the_previous_write");
+    if inside {
+        kani::assert(b.buffer.color == u8::from(c0), "c09.step.span_gets_previous_colour");
+    }
+    kani::assert(b.beam_last.line == l1 && b.beam_last.pixel == p1 && u8::from(b.beam_last.color) == u8::from(c1), "c09.step.position_and_colour_recorded");
+    kani::cover!(inside && to == from + 40, "longest span with the witness inside");
+}
+
+// @harness
+// @prop C09
+// @tier thorough
+// @features precise-border
+// @timeout 3000
+// @fn ZXBorder::fill_to
+// @sym as c09_fill_range with ranges of up to 32 pixels
+// @assert as c09_fill_range
+// @bound ranges of at most 32 pixels (unwind 34)
+#[kani::proof]
+#[kani::unwind(34)]
+fn c09_fill_range_32() {
+    let w = witness();
+    let mut b = ZXBorder::<WitFb>::new(ZXMachine::Sinclair48K, w);
+    let (l0, p0): (usize, usize) = (kani::any(), kani::any());
+    let (l1, p1): (usize, usize) = (kani::any(), kani::any());
+    kani::assume(l0 < SCREEN_HEIGHT && p0 <= SCREEN_WIDTH && l1 < SCREEN_HEIGHT && p1 <= SCREEN_WIDTH);
+    let from = l0 * SCREEN_WIDTH + p0;
+    let to = l1 * SCREEN_WIDTH + p1;
+    kani::assume(to <= from + 32);
+    let c = any_color();
+    b.beam_last = BeamInfo::new(l0, p0, c);
+    b.fill_to(l1, p1);
+    let wr = w.wy * SCREEN_WIDTH + w.wx;
+    let inside = from <= wr && wr < to;
+    kani::assert(!b.buffer.oob, "c09.fill.in_buffer");
+    kani::assert(b.buffer.hits == if inside { 1 } else { 0 }, "c09.fill.exactly_range");
+    if inside {
+        kani::assert(b.buffer.color == u8::from(c), "c09.fill.colour");
+    }
+    kani::cover!(inside && to == from + 32, "full-length range with witness inside");
+}
